@@ -39,6 +39,7 @@ FamilySet == CASE Fam = "F1" -> {<<b>> : b \in F1Bodies}
                [] Fam = "F3" -> F3Pairs
                [] Fam = "HID2" -> Hidden2Pairs
                [] Fam = "TSH" -> TrimShare
+               [] Fam = "SNG" -> SingleBodies
                [] Fam = "LRF" -> {<<b>> : b \in LRFreeBodies}
                [] Fam = "OPT" -> {<<b>> : b \in OptBodies}
                [] Fam = "LINES" -> {<<b>> : b \in LineBodies}
@@ -67,7 +68,9 @@ Init == \E bodies \in Chosen, ww \in Inputs :
           /\ outs = <<>>
 
 ErrJ(e) == IF e = NoErr THEN <<>> ELSE <<e.pos, e.k, e.msg>>
-ResJ(res) == [i \in 1..Len(res) |-> <<res[i].t, res[i].s, res[i].e>>]
+RECURSIVE ShJ(_)
+ShJ(v) == IF v.one = <<>> THEN <<v.t, v.s, v.e>> ELSE <<v.t, v.s, v.e, ShJ(v.one[1])>>
+ResJ(res) == [i \in 1..Len(res) |-> ShJ(res[i])]
 OutRec == [n |-> cur[1], p |-> cur[2], res |-> ResJ(ret.res), err |-> ErrJ(ret.err), calls |-> calls, cerr |-> ErrJ(cerr)]
 
 Fin == done /\ askq = <<>> /\ (TwoPhase => phase = 2)
@@ -129,7 +132,7 @@ SentenceIff ==
 \* tried and failed, equals it when every Any/Choice is named, and the expectation reported
 \* is one that failed at that position
 FurthestError ==
-  RootDone /\ D!Productive(G) =>
+  RootDone /\ D!C06Domain(G) =>
      LET o == ApiOutcome IN
      o.err # NoErr =>
         IF /\ Furthest > 0 /\ o.err.pos <= Furthest
